@@ -22,6 +22,7 @@ Strings of the Go side travel as hex of their bytes (`-` = empty).
   sigjoin <r dec> <s dec>           -> <hex>           getSignatureSlice ; sigsplit <hex> -> <r> <s>|err  (Verify's split)
   msdefault <k,k,..> / msmajority <k,k,..>  -> <hex>|err   CreateDefault/MajorityMultiSigRedeemScript
   sigverify <k> <sig hex> <0|1>     -> 0|1     (*PublicKey).Verify with ecdsa.Verify's answer on the first 64 bytes supplied
+  pow10 <n>                         -> <dec>   fixedn.pow10 as written (table below 17, fresh product above)
   privdec <hex>                     -> <D hex 32>|err   NewPrivateKeyFromBytes(..).Bytes()
   nep2enc <priv> <pass> <addr> <dk> <enc>   -> <hexstr>      NEP2Encrypt with the primitives' results supplied
   nep2dec <str> <pass> <dk> <dec> <addr>    -> <priv>|err    NEP2Decrypt with the primitives' results supplied
@@ -39,6 +40,7 @@ import NeoModel.Model.Codec.MsSort
 import NeoModel.Model.Codec.PubKey
 import NeoModel.Model.Codec.Nep2
 import NeoModel.Model.Codec.KeysMisc
+import NeoModel.Model.Codec.Pow10
 import NeoModel.Generated.CodecConsts
 open NeoModel NeoModel.Codec
 
@@ -187,6 +189,9 @@ def step (s : Unit) (ws : List String) : Unit × String :=
   | ["sigverify", k, h, e] => (match parseKey k, Hex.decode h with
     | some k, some sg => if verifyLayout k sg (fun _ _ => e == "1") then "1" else "0"
     | _, _ => "bad-op")
+  | ["pow10", n] => (match n.toNat? with
+    | some n => toString (pow10M n)
+    | none => "bad-op")
   | ["privdec", h] => withHex h fun b => (match privFromBytes b with
     | some d => Hex.encode (privBytes d)
     | none => "err")
